@@ -42,11 +42,23 @@ Theorem C05_simple_total : forall bs sc next,
 Proof. exact simple_total. Qed.
 Print Assumptions C05_simple_total.
 
-(* Wire level: for every input (initial conf + history of Balance / SetAvail / conn change / Update, with scripts)
-   whose model run contains no non-returning call (kf_C05 = 0), every Balance of the modelled history returns a backend
-   or an error.  (kf_C05 <> 0 would need brr.next out of range, which no operation produces; not proved at wire level.) *)
-Theorem C05_prop_of_model : forall i, kf_C05 i = 0 -> prop_C05 i (run_C05 i) = true.
-Proof. exact model_satisfies_prop. Qed.
+(* BalanceGslb.Balance (sub-cluster choice by hash or the single short-cut, in-cluster attempt, cross-cluster retry;
+   WRR / sticky / WLC): for every cluster, every req.RetryTime, every hash and every script running through the
+   whole call (flips consumed during the first sub-cluster's scan also hit the cross-retry sub-cluster) the call
+   returns a backend or one of its error codes. *)
+Theorem C05_gslb_total : forall algo h retry sc c, returned (gres (gslb_balance algo h retry sc c)).
+Proof. exact gslb_total. Qed.
+Print Assumptions C05_gslb_total.
+
+(* Wire level (central theorem): for EVERY input - initial conf + history of Balance / SetAvail / conn change / Update
+   with scripts, or a BalanceGslb cluster + history - every Balance of the modelled history returns a backend or an
+   error: prop_C05 holds of the model run.  No finding class is left: kf_C05 is 0 on every input (brr.next stays in
+   range and the lists keep their length through every operation). *)
+Theorem C05_kf_zero : forall i, kf_C05 i = 0.
+Proof. exact kf_zero. Qed.
+Print Assumptions C05_kf_zero.
+Theorem C05_prop_of_model : forall i, prop_C05 i (run_C05 i) = true.
+Proof. exact model_satisfies_prop_all. Qed.
 Print Assumptions C05_prop_of_model.
 
 (* Non-vacuity *)
@@ -71,3 +83,12 @@ Example C05_ex_wire :
                VL [VL [VZ 2; VZ 2; VZ 0]; VL [VZ 1; VZ 0; VB []; VL [VL [VL [VZ 1; VZ 0; VZ 0]]]]; VL [VZ 1; VZ 1; VB []; VL []]]] in
   kf_C05 i = 0 /\ run_C05 i <> VErr 0.
 Proof. exact ex_wire. Qed.
+(* a gslb history: the flip after backend 1's read takes it down; the next call fails in-cluster, sets RetryTime to
+   retryMax and cross-retries into the weight-0 sub-cluster 1 *)
+Example C05_ex_wire_gslb :
+  let i := VL [VL [VZ 7; VL [VL [VZ 0; VZ 1; VL [VL [VZ 1; VZ 1]]]; VL [VZ 1; VZ 0; VL [VL [VZ 2; VZ 1]]]]; VZ 1; VZ 1];
+               VL [VL [VZ 6; VZ 1; VZ 0; VB [1]; VL [VL [VL [VZ 1; VZ 0; VZ 0]]]];
+                   VL [VZ 6; VZ 1; VZ 0; VB [1]; VL []]]] in
+  run_C05 i = VL [VL [VZ 0; VL [VZ 0; VZ 1]; VZ 0; VZ 0; VL [VL [VL [VL [VZ 1; VZ 100; VZ 100]]; VZ 0]; VL [VL [VL [VZ 2; VZ 100; VZ 100]]; VZ 0]]];
+                  VL [VZ 0; VL [VZ 0; VZ 2]; VZ 1; VZ 1; VL [VL [VL [VL [VZ 1; VZ 100; VZ 100]]; VZ 0]; VL [VL [VL [VZ 2; VZ 100; VZ 100]]; VZ 0]]]].
+Proof. exact ex_wire_gslb. Qed.
